@@ -245,3 +245,80 @@ def e2e(cid, tier, seed, jobs, scale, outdir, m, log, asan=False):
 
 def e2e_asan(cid, tier, seed, jobs, scale, outdir, m, log):
     e2e(cid, tier, seed, jobs, scale, outdir, m, log, asan=True)
+
+
+# ---------------------------------------------------------------------------------------------
+# Miri: the same harness binary, interpreted, at strongly reduced counts
+
+MIRI_PLAN = {
+    # check: (parts, scale) — sized so that one shard interprets a few dozen cases / 1-3 scenarios
+    "C01": ("", 0.004), "C02": ("", 0.006), "C03": ("random", 0.05), "C05": ("", 0.01), "C06": ("decoder", 0.01),
+    "C07": ("", 0.001), "C08": ("", 0.004), "C09": ("", 0.006), "C10": ("", 0.006), "C11": ("", 0.006),
+    "C12": ("", 0.003), "C13": ("random", 0.004), "C14": ("direct", 0.003), "C15": ("", 0.002),
+    "C16": ("mutations,extremes", 0.01), "C17": ("docs,totality", 0.002), "C19": ("replies", 0.003), "C20": ("", 0.002),
+}
+
+
+def miri(cid, tier, seed, jobs, scale, outdir, m, log):
+    """Runs the check's workers under `cargo +nightly miri run` (UB / data-race / invalid-free
+    detector for everything the workload reaches, incl. bytes/tokio internals). Unsupported
+    operations and timeouts are inconclusive; an 'Undefined Behavior' diagnosis is a violation of
+    the no-crash clause of the property whose workload was running."""
+    if cid not in MIRI_PLAN or scale < 0.5:
+        return
+    parts, mscale = MIRI_PLAN[cid]
+    harness = os.path.join(VERIF, "harness")
+    env = dict(os.environ, CARGO_NET_OFFLINE="true")
+    shards = 8
+    mdir = os.path.join(outdir, "miri")
+    shutil.rmtree(mdir, ignore_errors=True)
+    os.makedirs(mdir)
+    t0 = time.time()
+    # warm-up build (serialised by cargo's lock anyway)
+    env0 = dict(env, MIRIFLAGS="-Zmiri-disable-isolation -Zmiri-ignore-leaks")
+    w = subprocess.run(["cargo", "+nightly", "miri", "run", "--offline", "--", "merge-hashes"], cwd=harness, env=env0, stdout=subprocess.PIPE, stderr=subprocess.PIPE, text=True)
+    if w.returncode != 0:
+        m["inconclusive"].append("miri: cannot build/run the harness under Miri: %s" % w.stderr[-300:])
+        return
+    procs = []
+    for i in range(shards):
+        e = dict(env, MIRIFLAGS="-Zmiri-disable-isolation -Zmiri-ignore-leaks -Zmiri-seed=%d" % (seed * 100 + i))
+        cmd = ["cargo", "+nightly", "miri", "run", "--offline", "--", "run", cid, "--tier", "quick", "--seed", str(seed + 7919), "--shard", "%d/%d" % (i, shards), "--out", mdir, "--scale", str(mscale)]
+        if parts:
+            cmd += ["--parts", parts]
+        lf = open(os.path.join(mdir, "miri-%d.log" % i), "w")
+        procs.append((i, subprocess.Popen(cmd, cwd=harness, env=e, stdout=lf, stderr=subprocess.STDOUT), lf))
+    deadline = time.time() + 3600
+    for i, p, lf in procs:
+        try:
+            rc = p.wait(timeout=max(1, deadline - time.time()))
+        except subprocess.TimeoutExpired:
+            p.kill()
+            p.wait()
+            rc = "watchdog"
+        lf.close()
+        text = open(os.path.join(mdir, "miri-%d.log" % i), errors="replace").read()
+        if rc == 0:
+            continue
+        if "Undefined Behavior" in text or "data race" in text.lower():
+            k = text.find("Undefined Behavior")
+            excerpt = text[max(0, k - 200):k + 1500]
+            in_rdest = "/repo/src/" in excerpt
+            _viol(m, "%s:miri:undefined-behaviour%s" % (cid, "" if in_rdest else ":third-party-frames-only"), "Miri diagnosed undefined behaviour while running the %s workload (shard %d)" % (cid, i), {"engine": "miri", "excerpt": excerpt})
+        else:
+            m["inconclusive"].append("miri shard %d ended with %s: %s" % (i, rc, text[-300:].replace("\n", " ")))
+    # merge what the interpreted workers observed
+    n_eval = 0
+    for i in range(shards):
+        f = os.path.join(mdir, "shard-%d.json" % i)
+        if not os.path.exists(f):
+            continue
+        d = json.load(open(f))
+        n_eval += d["evaluations"]
+        m["evaluations"] += d["evaluations"]
+        for v in d["violations"]:
+            v["witness"] = {"engine": "miri", "witness": v["witness"]}
+            _viol(m, v["signature"], v["what"], v["witness"])
+        m["inconclusive"] += ["miri: " + x for x in d["inconclusive"]]
+    _count(m, "miri_evaluations", n_eval)
+    m["sets"].setdefault("engines", set()).add("miri (%d interpreted evaluations in %d shards, %.0fs)" % (n_eval, shards, time.time() - t0))
